@@ -112,7 +112,10 @@ def concat_terms():
     sds = InputColumn("source_dataset", sqlglot_dialect_str="duckdb")
     for ntab in (2, 3):
         for salt in (False, True):
-            tabs = {f"t{i}": FakeDF(f"phys{i}", ["unique_id", "a", "b"]) for i in range(ntab)}
+            # every table lists the same columns in its own order: the SELECTs must all use
+            # the FIRST table's order (UNION ALL is positional)
+            base_cols = ["unique_id", "a", "b"]
+            tabs = {f"t{i}": FakeDF(f"phys{i}", base_cols[i % 3:] + base_cols[:i % 3]) for i in range(ntab)}
             sql = vertically_concatenate_sql(tabs, salting_required=salt, source_dataset_input_column=sds)
             t = sqlglot.parse_one(sql, read="duckdb")
             sels, union_all = [], True
